@@ -630,6 +630,9 @@ fn check_spans(out: &mut Out, text: &[u8], ro: Ro, r: Ref<'_>, parent: Option<(u
     if let Some(name) = is_quote_head {
         let want: &[u8] = match name { "quote" => b"'", "quasiquote" => b"`", "unquote" => b",", _ => b",@" };
         if piece != want { out.fail("span", format!("span of the quote head covers {:?}, not the shorthand characters", String::from_utf8_lossy(piece)), case.to_string(), json!({})); }
+    } else if matches!((r.value(), piece), (Value::Symbol(s), p) if matches!((&**s, p), ("quote", b"'") | ("quasiquote", b"`") | ("unquote", b",") | ("unquote-splicing", b",@"))) {
+        // the head of a quote shorthand that a dotted tail merged into the enclosing list, as in (a . 'x) = (a quote x):
+        // its span covers just the shorthand characters, which is what the property asks of a quote head
     } else {
         match parse_value(Src::Slice, ro, piece) {
             Ok(Ok(v)) if &v == r.value() => {}
